@@ -249,7 +249,7 @@ func c15LocateGuards(f gts.Feature, x gts.Region, L int, lines *[]string) (locs 
 		case "wrap":
 			// gts.Slice(seq, a+L, b): Rotate(seq, -(a+L)) — Expand(0, m), Normalize(L) —, then the forward
 			// slice [0, b-a) of the rotated record (Gts.Cli.cwinAbs), whose Overlap filter sees the ROTATED location
-			m := ((-(a+L))%L + L) % L
+			m := ((-(a + L))%L + L) % L
 			*lines = append(*lines, fmt.Sprintf("k2.expand %s 0 %d", encLoc(f.Loc), m))
 			mid := f.Loc.Expand(0, m)
 			*lines = append(*lines, fmt.Sprintf("k2.normalize %s %d", encLoc(mid), L))
